@@ -346,7 +346,14 @@ pub fn make_foreign_fixture_sized(ch: &Choices, seekable: bool, small: bool) -> 
     if ch.draw("rdg.last.short", 2) == 1 {
         *sizes.last_mut().unwrap() = 1 + ch.draw("rdg.last", base.max(17) as u64 - 1) as usize;
     }
-    let span = 1u64 << bps.min(16);
+    // mostly moderate amplitudes (so that every predictor stays usable), sometimes the full scale of the
+    // declared depth (side channels of 25 and 33 bits, reconstruction near the limits)
+    let span = if ch.draw("rdg.fullscale", 4) == 3 {
+        probe("rd_full_scale_samples");
+        1u64 << bps
+    } else {
+        1u64 << bps.min(16)
+    };
     let mut frames: Vec<Vec<u8>> = Vec::new();
     let mut inter: Vec<i32> = Vec::new();
     let mut pos = 0u64;
